@@ -942,6 +942,8 @@ def live_once(chk, cfg, phase, *, workers=1, secured=False, max_examples=4, stat
         for name, val in (cfg.get("headers") or {}).items():
             if cfg.get("auth") is not None and name.lower() == "authorization":
                 continue
+            if len({v for k, v in cfg["headers"].items() if k.lower() == name.lower()}) > 1:
+                continue  # the user configured two spellings with different values: no single user value (ci_user = None)
             if low.get(name.lower()) != val:
                 chk.fail(f"configured header {name!r} not sent with the user's value in phase {phase}: got {low.get(name.lower())!r}", {"cfg": canon_cfg, "request": r["method"] + " " + r["target"]},
                          region=region_of(cfg, phase, "net-header", name))
